@@ -380,6 +380,35 @@ def last_block_start(doc):
     return 0
 
 
+RETARGET_ROLES = {"id", "a1", "a2", "subst-id", "n-atoms", "n-bonds", "n-subst", "n-feat", "n-sets", "count"}
+
+
+def retarget_values(doc, i, j):
+    """other integers a token of line i could plausibly hold: 0, 1, n, n+1, -1 and the value the same
+    column has in the neighbouring lines (a duplicated id); n = size of what the token indexes"""
+    text, cls, block, toks = doc[i]
+    a, b, role, _ = toks[j]
+    cur = int(text[a:b])
+    same = [l for l in doc if l[2] == block and l[1] == cls]
+    if cls == "bond" and role == "id":
+        n = len(same)
+    elif cls in ("atom", "bond"):
+        n = sum(1 for l in doc if l[2] == block and l[1] == "atom")
+    else:
+        n = cur
+    vals = [0, 1, n, n + 1, -1]
+    for k in (i - 1, i + 1):
+        if 0 <= k < len(doc) and doc[k][1] == cls and doc[k][2] == block and j < len(doc[k][3]):
+            x, y = doc[k][3][j][0], doc[k][3][j][1]
+            if is_int(doc[k][0][x:y]):
+                vals.append(int(doc[k][0][x:y]))
+    out = []
+    for v in vals:
+        if v != cur and v not in out:
+            out.append(v)
+    return out
+
+
 def enumerate_faults(doc, fill="?!", infix="x", byte_cuts=True, num="7"):
     """every single structural fault of the document, as JSON-able descriptors (simplest first).
     `num` is the stray NUMERIC token of the token-adding faults (an integer that is no mol2 bond type)."""
@@ -429,6 +458,10 @@ def enumerate_faults(doc, fill="?!", infix="x", byte_cuts=True, num="7"):
                 yield {"kind": "count+1", "line": i, "tok": j}
                 if int(tok) > 0:  # a negative count is not "off by one" in any useful sense
                     yield {"kind": "count-1", "line": i, "tok": j}
+            # an integer that identifies or refers to something replaced by ANOTHER valid-looking integer
+            if role in RETARGET_ROLES and is_int(tok):
+                for v in retarget_values(doc, i, j):
+                    yield {"kind": "retarget", "line": i, "tok": j, "to": v}
         if fixed or cls.startswith("rti-"):
             yield {"kind": "extra-token", "line": i, "where": "end", "fill": fill}
             yield {"kind": "extra-token", "line": i, "where": "front", "fill": fill}
@@ -531,6 +564,8 @@ def apply_fault(doc, f):
             newtok = tok[:1] + f["fill"] + tok[1:]
     elif kind == "rename-section":
         newtok = tok.replace("@<TRIPOS>", "@<TRIPOS>X", 1) if "@<TRIPOS>" in tok else "X" + tok
+    elif kind == "retarget":
+        newtok = str(f["to"])
     elif kind == "count+1":
         newtok = str(int(tok) + 1)
     elif kind == "count-1":
